@@ -50,18 +50,26 @@ def run_one(job):
     return run_program(prog, seed, policy, base, family)
 
 
+HANGS = [0]          # runs of the harness that had to be killed; beyond a few the batch stops running new ones
+HANG_LIMIT = 12
+
+
 def run_program(prog, seed, policy, base, family="corpus", replay=None):
+    if HANGS[0] >= HANG_LIMIT:
+        return {"family": family, "seed": seed, "policy": policy, "prog": prog, "impl_exit": -9, "base": base,
+                "stderr": "skipped: the harness hung on %d earlier runs" % HANGS[0], "status": "harness-failed"}
     trace, sched, stats = base + ".impl", base + ".sched", base + ".stats"
     cmd = [CONC, prog, "--seed", str(seed), "--policy", policy, "--trace-out", trace,
            "--sched-out", sched, "--stats-out", stats]
     if replay:
         cmd += ["--replay", replay]
     try:
-        p = subprocess.run(cmd, stdout=subprocess.PIPE, stderr=subprocess.PIPE, timeout=120)
+        p = subprocess.run(cmd, stdout=subprocess.PIPE, stderr=subprocess.PIPE, timeout=40)
         code = p.returncode
         err = p.stderr.decode(errors="replace")[-2000:]
     except subprocess.TimeoutExpired:
         code, err = -9, "timeout"
+        HANGS[0] += 1
     res = {"family": family, "seed": seed, "policy": policy, "prog": prog, "impl_exit": code,
            "base": base, "stderr": err}
     if not os.path.exists(trace) or not os.path.exists(sched):
